@@ -167,7 +167,11 @@ def cgne(A, b, x0=None, tol=1e-5, criteria='rr',
     while True:                                   # Step number in Saad's pseudocode
 
         # alpha = (z_j, r_j) / (p_j, p_j)
-        alpha = old_zr / np.inner(p.conjugate(), p)
+        pp = np.inner(p.conjugate(), p)
+        if pp == 0.0:
+            warn('\nBreakdown in CGNE (vanishing search direction), aborting\n')
+            return (postprocess(x), -1)
+        alpha = old_zr / pp
 
         # x_{j+1} = x_j + alpha*p_j
         x += alpha * p
